@@ -388,8 +388,13 @@ def project_pressure_matrix(pm, frame, cidx):
             if L[q, j] != 0.0:
                 ent.append([cidx.get(kept[j], 0), int(round(L[q, j])) if abs(L[q, j] - round(L[q, j])) < 1e-12 else 99])
         turn = float(be.calculate_total_curvature(normalized=False))
-        rows.append({"i": bel.get(id(be), 0), "c": ent, "rhs": fx(pm.rhs_matrix[q]), "turn": fx(turn), "T": fx(be.tension)})
-    return {"rows": rows, "removed": [cidx.get(cid, 0) for cid, col in order.items() if col in removed]}
+        rows.append({"i": bel.get(id(be), 0), "c": ent, "rhs": float(pm.rhs_matrix[q]), "turn": fx(turn), "T": float(be.tension)})
+    # fixed-point range of the oracle: tensions of singular force systems can be astronomically large; then the values are
+    # not logged (in_range false: the value clauses of C04 are not judged, structure and turning still are)
+    inr = all(math.isfinite(r["rhs"]) and math.isfinite(r["T"]) and abs(r["rhs"]) < 1900 and abs(r["T"]) < 1900 for r in rows)
+    for r in rows:
+        r["rhs"], r["T"] = (fx(r["rhs"]), fx(r["T"])) if inr else (0, 0)
+    return {"rows": rows, "in_range": inr, "removed": [cidx.get(cid, 0) for cid, col in order.items() if col in removed]}
 
 
 def pressure_events(case, forsys, frame, t, o, vidx, cidx, cell_of_model, rng, resample, lin=True):
